@@ -13,7 +13,8 @@ VARIANTS = {"quick": ["O1"], "thorough": ["O1", "asan"]}
 AXIOMS_ALLOWED = runner.REAL_AXIOMS
 MODEL_NEEDS_IMPL = True      # the mirrored random offsets of the resampling calls are printed by the harness
 REQUIRED_THEOREMS = ["C06_inv", "C06_inv_every_step", "C06_ln_args_positive", "C06_reweight", "C06_no_measurement",
-                     "C06_resample_iff", "C06_resample_keeps_layout"]
+                     "C06_resample_iff", "C06_resample_keeps_layout", "C06_trace_full_bridge", "C06_no_usable_likelihood",
+                     "C06_settled_after_step", "C06_no_measurement_end_of_step", "C06_step_sites_positive"]
 RULE = ("histories from one seeded stream: 1..40 steps, N in 1..50, layouts (dl in 1..2, dc in 0..1), per step: freeze ok/fails, "
         "skip prediction / correction flags, likelihood valid/invalid, likelihood rows ordinary / vanishing (0, 1e-300) / one dominant / all zero "
         "(scripted LikelihoodModel) or the library's GaussianLikelihood over a linear measurement model with near / far measurements (30%); "
@@ -26,7 +27,10 @@ TRUSTED_BASE = ["Coq 8.16.1 kernel (coqc); the four real-number axioms of the st
                 "cumulative weight end the comparison of that history (counted)",
                 "correspondence is sampled: agreement is established on the generated histories only"]
 ASSUMPTIONS = ["the prediction moves states only and copies the weights (DrawParticles; premise of the model's predict)",
-               "a valid likelihood vector has one non-negative entry per particle",
+               "a valid likelihood vector has one non-negative entry per particle (GaussianLikelihood: scale_factor >= 0; a negative scale_factor "
+               "makes ln(lik + tiny) NaN and every weight NaN for ever: outside the domain, not modelled)",
+               "GaussianLikelihood itself is not modelled: on Gaussian histories the model receives the library's likelihood vector, which the oracle "
+               "checks against the closed form scale*N(y - Hx; 0, R) (C15 owns the density model)",
                "the initialisation returns N particles with normalised log-weights",
                "resampling is the base class Resampling (C07 model); 0 < u1 < 1/N is not needed for C06's clauses"]
 
@@ -35,7 +39,7 @@ NEAR_NEFF = 1e-9
 NEAR_COMB = 1e-12
 TINY = 2.2250738585072014e-308
 
-_stats = {"near_boundary_skipped": 0, "steps_compared": 0, "resamplings": 0, "freeze_failures": 0}
+_stats = {"near_boundary_same_decision": 0, "near_boundary_skipped": 0, "steps_compared": 0, "resamplings": 0, "freeze_failures": 0}
 
 
 def lik_row(rng, N, kind):
@@ -58,14 +62,24 @@ def generate(rng, tier):
         K = rng.randint(1, 40)
         dl, dc = rng.randint(1, 2), rng.randint(0, 1)
         d = dl + dc
-        w = np.array([rng.random() + 0.05 for _ in range(N)]) if rng.random() < 0.7 else np.ones(N)
+        r0 = rng.random()
+        if r0 < 0.55:
+            w = np.array([rng.random() + 0.05 for _ in range(N)])
+        elif r0 < 0.8:
+            w = np.ones(N)
+        else:
+            # degenerate INITIAL weights: with a failed first acquisition the copied initial set itself is resampled at step 0
+            w = np.array([rng.random() * 1e-4 for _ in range(N)]); w[rng.randrange(N)] = 1.0
         lw = np.log(w / w.sum())
         pf = rng.choice([0.0, 0.1, 0.3])       # probability of a failed acquisition
-        fr, sp, sc, lv, rows, kinds = [], [], [], [], [], []
+        first_fails = r0 >= 0.8 and rng.random() < 0.6
+        fr, sp, sc, lv, rows, kinds, cmds = [], [], [], [], [], [], []
         for k in range(K):
-            fr.append(0 if rng.random() < pf else 1)
-            sp.append(1 if rng.random() < 0.08 else 0)
-            sc.append(1 if rng.random() < 0.08 else 0)
+            fr.append(0 if (rng.random() < pf or (k == 0 and first_fails)) else 1)
+            cm = rng.choice(["prediction", "state", "correction", "all"]) if rng.random() < 0.15 else "none"
+            cmds.append(cm)
+            sp.append(1 if cm in ("prediction", "state", "all") else 0)
+            sc.append(1 if cm in ("correction", "all") else 0)
             lv.append(0 if rng.random() < 0.1 else 1)
             kind = rng.choice(["ordinary", "ordinary", "vanishing", "dominant", "zero", "flat"])
             kinds.append(kind)
@@ -75,6 +89,8 @@ def generate(rng, tier):
                                      "nfail": fr.count(0), "nvanish": sum(1 for q in kinds if q in ("vanishing", "zero"))})
         c.mat_shape("init_state", d, N, [[rng.uniform(-3, 3) for _ in range(N)] for _ in range(d)])
         c.mat_shape("init_lw", N, 1, lw)
+        c.mat_shape("init_mean", d, N, [[rng.uniform(-3, 3) for _ in range(N)] for _ in range(d)])
+        c.mat_shape("init_cov", d, d * N, [[rng.uniform(-1, 1) for _ in range(d * N)] for _ in range(d)])
         c.mat_shape("lik", K, N, rows)
         c.mat_shape("shift", K, d, [[rng.uniform(-0.5, 0.5) for _ in range(d)] for _ in range(K)])
         c.mat_shape("a", 1, 1, [rng.choice([1.0, 0.9, -0.75])])
@@ -83,10 +99,10 @@ def generate(rng, tier):
             m = rng.randint(1, 2)
             A = np.array([[rng.uniform(-1, 1) for _ in range(m)] for _ in range(m)])
             c.mat_shape("H", m, d, [[rng.uniform(-1, 1) for _ in range(d)] for _ in range(m)])
-            c.mat_shape("Rm", m, m, A @ A.T + np.eye(m) * rng.choice([0.05, 0.5, 2.0]))
+            c.mat_shape("Rm", m, m, A @ A.T + np.eye(m) * rng.choice([1e-6, 0.05, 0.5, 2.0]))     # 1e-6: ill-conditioned for m = 2
             c.mat_shape("ys", K, m, [[rng.uniform(-2, 2) * (1.0 if kinds[k] != "vanishing" else 60.0) for _ in range(m)] for k in range(K)])
-            c.mat_shape("scale", 1, 1, [rng.choice([1.0, 2.5])])
-        c.word("freeze", fr).word("skipp", sp).word("skipc", sc).word("likvalid", lv)
+            c.mat_shape("scale", 1, 1, [rng.choice([1.0, 2.5, 0.0])])     # scale 0: every likelihood vanishes
+        c.word("freeze", fr).word("skipp", sp).word("skipc", sc).word("likvalid", lv).word("cmd", cmds)
         c.int("seed", rng.randrange(0, 2 ** 32))
         cases.append(c)
     return cases
@@ -126,6 +142,21 @@ def gauss_density(c, k, states):
         return float(c.get("scale")[0, 0]) * np.exp(-0.5 * (m * math.log(2 * math.pi) + math.log(np.linalg.det(Rm)) + q))
 
 
+def aux_diffs(c, impl, model, tag, sk):
+    """mean and covariance blocks of every particle: exactly those of the initial particle the model says they come from"""
+    aux = col(model, tag + "aux" + sk)
+    mn, cv = impl.get(tag + "mn" + sk), impl.get(tag + "cv" + sk)
+    im, ic = c.get("init_mean"), c.get("init_cov")
+    d = im.shape[0]
+    if mn is None or cv is None or mn.shape != (d, aux.size) or cv.shape != (d, d * aux.size):
+        return ["%smn/%scv%s: missing or wrong shape" % (tag, tag, sk)]
+    for j in range(aux.size):
+        a = int(aux[j])
+        if not (same_bits(mn[:, j], im[:, a]) and same_bits(cv[:, j * d:(j + 1) * d], ic[:, a * d:(a + 1) * d])):
+            return ["%s set, particle %d: mean/covariance are not those of initial particle %d" % ("corrected" if tag == "c" else "predicted", j, a)]
+    return []
+
+
 def compare(c, impl, model):
     N, K = int(c.meta["N"]), int(c.meta["K"])
     diffs = []
@@ -134,15 +165,20 @@ def compare(c, impl, model):
         if not model.has("neff" + sk):
             diffs.append("step %d: no model record" % k); break
         nm = model.get("neff" + sk)
-        if abs(nm - N / 3.0) < NEAR_NEFF:
+        if abs(nm - N / 3.0) < NEAR_NEFF and model.get("res" + sk) != impl.get("res" + sk):
             _stats["near_boundary_skipped"] += 1
-            break                      # decision within rounding of the threshold: the histories may legitimately diverge
+            break                      # decision within rounding of the threshold AND the two float decisions differ: the histories diverge
+        if abs(nm - N / 3.0) < NEAR_NEFF:
+            _stats["near_boundary_same_decision"] += 1
         _stats["steps_compared"] += 1
         ints = ["cn", "cdl", "cdc", "pn", "pdl", "pdc", "res"]
         d = caseio.compare_fields(impl, model, [f + sk for f in ints], 0, 0)
         d += caseio.compare_fields(impl, model, ["plw" + sk], atol=1e-9, rtol=0)
         d += caseio.compare_fields(impl, model, ["pst" + sk], atol=1e-12, rtol=1e-12)
         d += caseio.compare_fields(impl, model, ["neff" + sk], atol=0, rtol=1e-9)
+        d += aux_diffs(c, impl, model, "p", sk)
+        if impl.get("lstep" + sk) is None or impl.get("lstep" + sk) + 1 != model.get("step" + sk):
+            d.append("step counter: library step_number() = %s during step %d, model counter after the step = %s" % (impl.get("lstep" + sk), k, model.get("step" + sk)))
         near = False
         if model.get("res" + sk) == 1 and impl.get("res" + sk) == 1:
             cs, cb = col(model, "csw" + sk), col(model, "comb" + sk)
@@ -155,6 +191,7 @@ def compare(c, impl, model):
             break
         d += caseio.compare_fields(impl, model, ["clw" + sk], atol=1e-9, rtol=0)
         d += caseio.compare_fields(impl, model, ["cst" + sk], atol=1e-12, rtol=1e-12)
+        d += aux_diffs(c, impl, model, "c", sk)
         if d:
             diffs += ["step %d: %s" % (k, x) for x in d]
             break
@@ -171,6 +208,7 @@ def oracle(c, impl, model):
     if impl.get("init_ok") != 1:
         v.append(("C06:init-failed", "initialization_step returned false")); return v
     prev_clw, prev_cst = None, None
+    prev_c = None
     nres = 0
     for k in range(K):
         sk = str(k)
@@ -184,6 +222,10 @@ def oracle(c, impl, model):
                 return v
         clw, plw = col(impl, "clw" + sk), col(impl, "plw" + sk)
         cst, pst = impl.get("cst" + sk), impl.get("pst" + sk)
+        cmc = (impl.get("cmn" + sk), impl.get("ccv" + sk)); pmc = (impl.get("pmn" + sk), impl.get("pcv" + sk))
+        dd = dl + dc
+        if any(x is None for x in cmc + pmc) or cmc[0].shape != (dd, N) or cmc[1].shape != (dd, dd * N) or pmc[0].shape != (dd, N) or pmc[1].shape != (dd, dd * N):
+            v.append(("C06:mean-cov-storage", "%s: mean/covariance storage does not have %d x %d / %d x %d entries" % (where, dd, N, dd, dd * N))); return v
         res = impl.get("res" + sk)
         nres += res
         if not np.all(np.isfinite(clw)):
@@ -202,8 +244,12 @@ def oracle(c, impl, model):
                 v.append(("C06:prediction-changed-weights", "%s" % where))
         # calls
         exp_lik = 1 if (fr[k] == "1" and sc[k] != "1") else 0
-        if (impl.get("neffcalls" + sk), impl.get("freezecalls" + sk), impl.get("likcalls" + sk)) != (1, 1, exp_lik):
-            v.append(("C06:call-log", "%s: neff/freeze/likelihood calls %s, expected (1, 1, %d)" % (where, (impl.get("neffcalls" + sk), impl.get("freezecalls" + sk), impl.get("likcalls" + sk)), exp_lik)))
+        if exp_lik == 0 and impl.get("likcalls" + sk) != 0:
+            v.append(("C06:call-log", "%s: the likelihood was evaluated although the correction is skipped or the acquisition failed" % where))
+        if exp_lik == 1 and impl.get("likcalls" + sk) < 1:
+            v.append(("C06:call-log", "%s: the likelihood was not evaluated" % where))
+        if impl.get("lstep" + sk) != k:
+            v.append(("C06:step-counter", "%s: step_number() = %s" % (where, impl.get("lstep" + sk))))
         # the likelihood vector of this step
         lrow = lik[k, :]
         if gauss and exp_lik == 1:
@@ -236,13 +282,15 @@ def oracle(c, impl, model):
             return v
         if res == 0:
             if fr[k] != "1":
-                if not (same_bits(clw, plw) and same_bits(cst, pst)):
+                if not (same_bits(clw, plw) and same_bits(cst, pst) and same_bits(cmc[0], pmc[0]) and same_bits(cmc[1], pmc[1])):
                     v.append(("C06:no-measurement-not-predicted", "%s: acquisition failed but the corrected set differs from the predicted set" % where))
             else:
                 if not caseio.close(clw, spec, 1e-9, 0.0):
                     v.append(("C06:reweight", "%s: corrected log-weights differ from lw + log(lik + tiny) - lse by %.3g" % (where, caseio.maxdiff(clw, spec))))
-                if not same_bits(cst, pst):
-                    v.append(("C06:correction-moved-states", "%s" % where))
+                if not (same_bits(cst, pst) and same_bits(cmc[0], pmc[0]) and same_bits(cmc[1], pmc[1])):
+                    v.append(("C06:correction-moved-states", "%s: states, means or covariances differ between predicted and corrected set" % where))
+                if (sc[k] == "1" or lv[k] != "1") and not caseio.close(clw, plw, 1e-9, 0.0):
+                    v.append(("C06:unusable-measurement-not-predicted", "%s: correction skipped or likelihood invalid but corrected weights differ from the predicted ones by %.3g" % (where, caseio.maxdiff(clw, plw))))
         elif res == 1:
             if not np.all(np.abs(clw + math.log(N)) <= 1e-15):
                 v.append(("C06:resampled-weights-not-uniform", "%s: %s" % (where, clw[:6])))
@@ -250,7 +298,8 @@ def oracle(c, impl, model):
             if par is None or par.size != N or np.any(par < 0) or np.any(par >= N):
                 v.append(("C06:resampled-parents", "%s: parents %s" % (where, par)))
             else:
-                bad = [j for j in range(N) if not same_bits(cst[:, j], pst[:, int(par[j])])]
+                bad = [j for j in range(N) if not (same_bits(cst[:, j], pst[:, int(par[j])]) and same_bits(cmc[0][:, j], pmc[0][:, int(par[j])])
+                                                   and same_bits(cmc[1][:, j * dd:(j + 1) * dd], pmc[1][:, int(par[j]) * dd:(int(par[j]) + 1) * dd]))]
                 if bad:
                     v.append(("C06:resampled-not-copy", "%s: particle %d is not a copy of its parent %d" % (where, bad[0], int(par[bad[0]]))))
         else:
